@@ -23,7 +23,8 @@
 (***************************************************************************)
 EXTENDS Integers, Sequences, FiniteSets, TLC, Json
 
-CONSTANTS MaxOps, MaxWrap, Bases, Deep, FullTable, Emitting
+CONSTANTS MaxOps, MaxWrap, Bases, Deep, FullTable, Emitting,
+          CtrlOnly          \* restrict the wrappers to the two controlled ones (deep nestings of ONE wrapper kind, several per circuit)
 VARIABLES circ, n
 vars == <<circ, n>>
 
@@ -36,7 +37,19 @@ PGamma == Par("gamma", {"gamma"})                     \* a symbol whose name sym
 PIdx == Par("x[3]", {"x[3]"})                         \* indexed symbol
 PExpr == Par("0.25*theta + beta", {"theta", "beta"})  \* float coefficient, one shadowing name
 PMix == Par("x[3] + 2*y", {"x[3]", "y"})              \* indexed and plain symbols with different base names
-PlainNames == {"theta", "y", "a", "b"}
+\* element names of two parameter vectors of which one is a textual suffix of the other (eta / theta, a / alpha); a symbol called
+\* pi next to the constant pi (both print as "pi"); an indexed w[2] next to a plain w_2; a negation, a rational and a power
+PEta1 == Par("eta[1]", {"eta[1]"})
+PTheta1 == Par("theta[1]", {"theta[1]"})
+PAlphaA == Par("a[0]*alpha[0]", {"a[0]", "alpha[0]"})
+PPiConst == Par("pi", {})
+PPiSym == Par("Symbol(pi)", {"pi"})
+PW2Idx == Par("w[2]", {"w[2]"})
+PW2Plain == Par("w_2", {"w_2"})
+PNeg == Par("-theta", {"theta"})
+PRat == Par("1/3", {})
+PSq == Par("theta**2 - phi/3", {"theta", "phi"})
+PlainNames == {"theta", "y", "a", "b", "w_2", "phi"}
 Wrong == Par("WRONG", {})
 \* what the textual round trip returns for parameter p when the parser is given `table`
 ReadBack(p, table) == IF \A s \in p.syms : s \in table \/ s \in PlainNames THEN p ELSE Wrong
@@ -104,8 +117,10 @@ CircFromDict(cd) == [n |-> cd.n, ops |-> [i \in 1..Len(cd.ops) |-> [g |-> FromDi
 \* ---- enumeration -----------------------------------------------------------------------------------------------------
 BaseSeq == << Builtin("X", <<>>), Builtin("RX", <<PTheta>>), Builtin("RX", <<PFloat>>), Builtin("U3", <<PGamma, PInt, PIdx>>), Builtin("RX", <<PExpr>>),
               Builtin("RX", <<PMix>>), Custom("G0", <<>>), Custom("G2", <<PTheta, PFloat>>), Custom("G2", <<PGamma, PIdx>>), Custom("G2", <<PInt, PExpr>>),
-              Builtin("CNOT", <<>>), Custom("G2", <<PTheta, PTheta>>) >>
-Wrappers(x) == {Ctrl(x, 1), Ctrl(x, 2), Dag(x), Exp(x), Pow(x, "2"), Pow(x, "-1"), Pow(x, "0.5")}
+              Builtin("CNOT", <<>>), Custom("G2", <<PTheta, PTheta>>),
+              Builtin("U3", <<PEta1, PTheta1, PAlphaA>>), Builtin("RX", <<PPiConst>>), Builtin("RX", <<PPiSym>>), Builtin("U3", <<PW2Idx, PW2Plain, PFloat>>),
+              Builtin("U3", <<PNeg, PRat, PSq>>), Custom("G2", <<PPiSym, PPiConst>>), Custom("G2", <<PTheta1, PEta1>>) >>
+Wrappers(x) == IF CtrlOnly THEN {Ctrl(x, 1), Ctrl(x, 2)} ELSE {Ctrl(x, 1), Ctrl(x, 2), Dag(x), Exp(x), Pow(x, "2"), Pow(x, "-1"), Pow(x, "0.5")}
 RECURSIVE Trees(_)
 Trees(dd) == IF dd = 0 THEN {BaseSeq[i] : i \in Bases}
              ELSE LET prev == Trees(dd - 1) IN prev \cup UNION {Wrappers(x) : x \in {y \in prev : Depth(y) = dd - 1}}
